@@ -31,6 +31,11 @@ impl Dechunker {
         };
 
         loop {
+            #[cfg(feature = "verif-hooks")]
+            crate::verif_hooks::tick("dechunk");
+            #[cfg(feature = "verif-hooks")]
+            let before = self.verif_name();
+
             let more = match self {
                 Dechunker::Size => self.read_size(src, &mut pos)?,
                 Dechunker::Chunk(_) => self.read_data(src, dst, &mut pos)?,
@@ -40,12 +45,32 @@ impl Dechunker {
                 Dechunker::Ended => false,
             };
 
+            #[cfg(feature = "verif-hooks")]
+            if before != self.verif_name() {
+                crate::verif_hooks::emit(crate::verif_hooks::Event::Dechunk {
+                    from: before,
+                    to: self.verif_name(),
+                });
+            }
+
             if !more {
                 break;
             }
         }
 
         Ok((pos.index_in, pos.index_out))
+    }
+
+    #[cfg(feature = "verif-hooks")]
+    fn verif_name(&self) -> &'static str {
+        match self {
+            Dechunker::Size => "Size",
+            Dechunker::Chunk(_) => "Chunk",
+            Dechunker::CrLf => "CrLf",
+            Dechunker::Ending => "Ending",
+            Dechunker::Trailer => "Trailer",
+            Dechunker::Ended => "Ended",
+        }
     }
 
     pub fn is_on_chunk_boundary(&self) -> bool {
